@@ -3,8 +3,8 @@
    exit status, stdout lines, a traceback indicator, the JSON document found in stdout, and per
    candidate builder version the vector in play and what the library API reports for it
    (drivers/cli.py).  The verdict fixes values, not layout.                                 *)
-EXTENDS CliOps, Json, IOUtils, TLC
-T == JsonDeserialize(IOEnv.TRACE_FILE)
+EXTENDS CliOps, Json, IOUtils, TLC, TraceData
+T == TraceData
 VARIABLES i, ph
 Init == i \in 1..Len(T) /\ ph = 0
 Next == ph = 0 /\ ph' = 1 /\ i' = i
